@@ -23,7 +23,7 @@ import (
 
 const c16AdminSock = "/tmp/gonuts/gonuts-admin.sock"
 
-func c16AdminCall(env *menv.Env, method string) (json.RawMessage, error) {
+func c16AdminCall(env *menv.Env, method string, params ...string) (json.RawMessage, error) {
 	lf, err := os.OpenFile("/tmp/verif-gonuts-admin.lock", os.O_CREATE|os.O_RDWR, 0o666)
 	if err != nil {
 		return nil, fmt.Errorf("lock file: %v", err)
@@ -46,7 +46,11 @@ func c16AdminCall(env *menv.Env, method string) (json.RawMessage, error) {
 	}
 	defer conn.Close()
 	conn.SetDeadline(time.Now().Add(60 * time.Second))
-	req, _ := json.Marshal(map[string]any{"jsonrpc": "2.0", "method": method, "id": 7})
+	rq := map[string]any{"jsonrpc": "2.0", "method": method, "id": 7}
+	if len(params) > 0 {
+		rq["params"] = params
+	}
+	req, _ := json.Marshal(rq)
 	if _, err := conn.Write(req); err != nil {
 		return nil, fmt.Errorf("write: %v", err)
 	}
